@@ -26,7 +26,7 @@ from props.c05 import Clock, ser
 # (77eb352, 75ba437, 73e2263, c1f4ae4) and are no longer excluded.  STILL_QUESTIONED lists the path features whose C08
 # finding is open; set RESTRICT_TO_UNQUESTIONED = False (or empty the tuple) to lift the restriction entirely.
 RESTRICT_TO_UNQUESTIONED = True
-STILL_QUESTIONED = ("list-in-list",)
+STILL_QUESTIONED = ()
 
 
 def selector_usable(doc, comps, form):
